@@ -6,4 +6,7 @@ SameVar3 == (1 :> "v" @@ 2 :> "v" @@ 3 :> "w")
 OwnLock2 == (1 :> "k1" @@ 2 :> "k2")
 Ch2 == (1 :> 2 @@ 2 :> 2)
 Ch3 == (1 :> 1 @@ 2 :> 2 @@ 3 :> 1)
+\* one thread per image of a quad-polarisation product, two of them on the same image: more loads in flight than images
+Var4 == (1 :> "hh" @@ 2 :> "hv" @@ 3 :> "vh" @@ 4 :> "hh")
+Ch4 == (1 :> 1 @@ 2 :> 1 @@ 3 :> 1 @@ 4 :> 1)
 =============================================================================
